@@ -114,12 +114,19 @@ func (e *c15Env) close() { w := e.w; w.srv.NFS.Unexport(); w.srv.Close() }
 
 // play sends the stream on one connection and returns the XIDs of the replies, in order, and whether the
 // server closed the connection.
-func (e *c15Env) play(s c15Stream) (xids []uint32, closed bool, malformedReply bool) {
+func (e *c15Env) play(s c15Stream, expectClose bool) (xids []uint32, closed bool, malformedReply bool) {
 	conn, err := net.DialTimeout("tcp", fmt.Sprintf("127.0.0.1:%d", e.port), 2*time.Second)
 	if err != nil {
 		return nil, false, false
 	}
 	defer conn.Close()
+	// how long to wait for more after the last byte: a stream with a record the server must refuse is expected to
+	// end with the server hanging up, which a loaded machine may take a while to do (the wait ends at once when it
+	// does); a clean stream just ends after its last reply
+	idle := 400 * time.Millisecond
+	if expectClose {
+		idle = 5 * time.Second
+	}
 	done := make(chan struct{})
 	go func() {
 		defer close(done)
@@ -127,7 +134,7 @@ func (e *c15Env) play(s c15Stream) (xids []uint32, closed bool, malformedReply b
 			var rec []byte
 			for {
 				var hdr [4]byte
-				conn.SetReadDeadline(time.Now().Add(400 * time.Millisecond))
+				conn.SetReadDeadline(time.Now().Add(idle))
 				if _, err := io.ReadFull(conn, hdr[:]); err != nil {
 					if err == io.EOF || strings.Contains(err.Error(), "reset") {
 						closed = true
@@ -158,7 +165,7 @@ func (e *c15Env) play(s c15Stream) (xids []uint32, closed bool, malformedReply b
 		}
 	}()
 	for _, q := range s.Recs {
-		conn.SetWriteDeadline(time.Now().Add(time.Second))
+		conn.SetWriteDeadline(time.Now().Add(5 * time.Second))
 		var err error
 		if q.Raw != nil {
 			_, err = conn.Write(q.Raw)
@@ -228,7 +235,14 @@ func judgeC15(r *Result, env *c15Env, streams []c15Stream) {
 		runtime.GC()
 		runtime.ReadMemStats(&ms)
 		before := ms.TotalAlloc
-		xids, closed, badReply := env.play(s)
+		expectClose := false
+		for j, q := range s.Recs {
+			if q.Raw != nil || !strings.HasPrefix(model[i][j], "some") || len(q.Payload) > maxRecordBytes {
+				expectClose = q.Raw == nil
+				break
+			}
+		}
+		xids, closed, badReply := env.play(s, expectClose)
 		runtime.ReadMemStats(&ms)
 		grown := ms.TotalAlloc - before
 		r.Compared++
